@@ -627,7 +627,7 @@ func corpus() []Case {
 func randConn(r *lib.Rng, n int, malformed bool) [][]int {
 	idx := func() int {
 		if malformed && r.Chance(1, 4) {
-			return r.Pick([]int{-1, -2, n, n + 1, n + 4, 7, 1 << 20, -(1 << 20)})
+			return r.Pick([]int{-1, -2, n, n, n + 1, n + 4, 7, 1 << 20, -(1 << 20)})
 		}
 		return r.Intn(n)
 	}
@@ -738,6 +738,9 @@ func genCase(r *lib.Rng, id int64, tier string) Case {
 	fired := false
 	for i := 0; i < nops; i++ {
 		x := r.Intn(20)
+		if c.Lancero && r.Chance(1, 4) {
+			x = 16 // err/fb coupling requests are what a Lancero source is for
+		}
 		switch {
 		case x < 7:
 			if ncyc < maxcyc {
